@@ -44,6 +44,9 @@ func (x *Exec) generate(fn *ssa.Function) {
 	x.top = fn
 	// the element-level codec model (tape.go) is used by the mirror lemmas only
 	x.tapeMode = strings.HasPrefix(fn.Name(), "lemmaMirror")
+	if x.tapeMode {
+		x.maxDepth = 48 // codec call chains are deep (Struct -> callback -> field codec -> Struct ...)
+	}
 	c := x.cs.forFunc(fn)
 	st := newState()
 	var params, fvs []Val
